@@ -112,7 +112,7 @@ def get_values(vc, obl, exprs, bounds, wd, timeout=10, fuel=3):
 
 # ---- running a replay ------------------------------------------------------------------------------------
 
-def run_go_test(repo, pkgdir, source, wd, name='TestVerifReplay', timeout=60):
+def run_go_test(repo, pkgdir, source, wd, name='TestVerifReplay', timeout=60, race=False):
     """inject source as an in-package test of repo/pkgdir via overlay and run it"""
     os.makedirs(wd, exist_ok=True)
     src = os.path.join(wd, 'zz_verif_replay_test.go')
@@ -124,7 +124,7 @@ def run_go_test(repo, pkgdir, source, wd, name='TestVerifReplay', timeout=60):
     ov = os.path.join(wd, 'overlay.json')
     with open(ov, 'w') as f:
         json.dump({'Replace': {os.path.join(repo, pkgdir, 'zz_verif_replay_test.go'): src}}, f)
-    cmd = ['go', 'test', '-overlay', ov, '-modfile', os.path.join(wd, 'go.mod'), '-vet=off', '-count=1',
+    cmd = ['go', 'test', '-overlay', ov, '-modfile', os.path.join(wd, 'go.mod'), '-vet=off', '-count=1'] + (['-race'] if race else []) + [
            '-timeout', '%ds' % timeout, '-run', '^%s$' % name, './' + pkgdir]
     try:
         p = subprocess.run(cmd, cwd=repo, capture_output=True, text=True, env=driver.goenv(), timeout=timeout + 120)
@@ -133,7 +133,7 @@ def run_go_test(repo, pkgdir, source, wd, name='TestVerifReplay', timeout=60):
     out = (p.stdout + p.stderr)[-4000:]
     if p.returncode == 0:
         return 'PASS', out
-    if '--- FAIL' in out or 'panic:' in out or 'FAIL' in out:
+    if '--- FAIL' in out or 'panic:' in out or 'FAIL' in out or 'DATA RACE' in out:
         if '[build failed]' in out or 'setup failed' in out:
             return 'BUILD-ERROR', out
         return 'FAIL', out
@@ -1563,3 +1563,450 @@ class ParserFamily(Family):
     def bounded_source(cls, prog, fname):
         return 'calculator', cls.source(), ('all token sequences up to length 3 over a 20-token alphabet, up to length 5 over {1,a,-,*,(,),[,],",",f}, '
                                             'up to length 6 over {1,f,(,),","} and over {a,IS,NOT,NULL,IN,LIKE,1}, against a reference recogniser')
+
+
+EVAL_TEST = r'''package calculator_test
+
+import (
+	"fmt"
+	"strings"
+	"sync"
+	"testing"
+
+	"github.com/pip-services3-gox/pip-services3-expressions-gox/calculator"
+	"github.com/pip-services3-gox/pip-services3-expressions-gox/calculator/parsers"
+	"github.com/pip-services3-gox/pip-services3-expressions-gox/calculator/variables"
+	"github.com/pip-services3-gox/pip-services3-expressions-gox/variants"
+)
+
+// C03 / C19 / A6 (bounded): every token sequence up to the stated length over the alphabets below. For each
+// accepted expression: (A6) the compiled program is a well-formed reverse-polish program - the rpnDepth of the
+// contracts, computed here over the real ResultTokens, never goes negative and every token carries a value;
+// (C03) evaluating it under each variable assignment and each operations manager returns exactly one of a result
+// or an error and never panics; (C19) evaluating again returns an equal answer, and the compiled program and the
+// variable values are the same objects with the same contents before and after; concurrent evaluations of one
+// compiled expression with separate variable collections return the sequential answers.
+func isBin(t int) bool {
+	switch t {
+	case parsers.And, parsers.Or, parsers.Xor, parsers.Plus, parsers.Minus, parsers.Star, parsers.Slash, parsers.Procent, parsers.Power,
+		parsers.ShiftLeft, parsers.ShiftRight, parsers.Equal, parsers.NotEqual, parsers.More, parsers.Less, parsers.EqualMore, parsers.EqualLess,
+		parsers.In, parsers.NotIn, parsers.Element:
+		return true
+	}
+	return false
+}
+func isUn(t int) bool { return t == parsers.Not || t == parsers.Unary || t == parsers.IsNull || t == parsers.IsNotNull }
+
+func rpnDepth(s []*parsers.ExpressionToken, n int) int {
+	if n <= 0 { return 0 }
+	d := rpnDepth(s, n-1)
+	if d < 0 { return -1 }
+	t := s[n-1].Type()
+	switch {
+	case t == parsers.Constant || t == parsers.Variable: return d + 1
+	case t == parsers.Function:
+		if n >= 2 && s[n-2].Type() == parsers.Constant && s[n-2].Value().Type() == variants.Integer && 0 <= s[n-2].Value().AsInteger() && s[n-2].Value().AsInteger() < d {
+			return d - s[n-2].Value().AsInteger()
+		}
+		return -1
+	case isBin(t): if d >= 2 { return d - 1 }; return -1
+	case isUn(t): if d >= 1 { return d }; return -1
+	}
+	return d
+}
+
+type snap struct { tok *parsers.ExpressionToken; typ int; val *variants.Variant; str string }
+
+func snapshot(c *calculator.ExpressionCalculator) []snap {
+	var out []snap
+	for _, t := range c.ResultTokens() { out = append(out, snap{t, t.Type(), t.Value(), t.Value().String()}) }
+	return out
+}
+func sameSnap(a, b []snap) bool {
+	if len(a) != len(b) { return false }
+	for i := range a { if a[i] != b[i] { return false } }
+	return true
+}
+
+func varSets() []func() *variables.VariableCollection {
+	mk := func(a, b *variants.Variant) func() *variables.VariableCollection {
+		return func() *variables.VariableCollection {
+			vc := variables.NewVariableCollection()
+			vc.Add(variables.NewVariable("a", a.Clone()))
+			vc.Add(variables.NewVariable("b", b.Clone()))
+			return vc
+		}
+	}
+	arr := variants.VariantFromArray([]*variants.Variant{variants.VariantFromInteger(1), variants.VariantFromString("x")})
+	return []func() *variables.VariableCollection{
+		mk(variants.VariantFromInteger(3), arr),
+		mk(variants.EmptyVariant(), variants.VariantFromDouble(2.5)),
+		mk(variants.VariantFromString("s"), variants.VariantFromBoolean(true)),
+		mk(variants.VariantFromLong(-9223372036854775808), variants.VariantFromInteger(0)),
+	}
+}
+
+func evalOnce(t *testing.T, expr string, c *calculator.ExpressionCalculator, vars *variables.VariableCollection) (res string, ok bool) {
+	defer func() { if r := recover(); r != nil { t.Errorf("%q: evaluation panicked: %v", expr, r); ok = false } }()
+	v, err := c.EvaluateUsingVariables(vars)
+	if (v != nil) == (err != nil) { t.Errorf("%q: result=%v err=%v (exactly one must be non-nil)", expr, v, err); return "", false }
+	if err != nil { return "E:" + err.Error(), true }
+	return "V:" + fmt.Sprintf("%d:", v.Type()) + v.String(), true
+}
+
+func TestVerifReplay(t *testing.T) {
+	var cases [][]string
+	var gen func(abc []string, cur []string, n int)
+	gen = func(abc []string, cur []string, n int) { if len(cur) > 0 { cases = append(cases, append([]string{}, cur...)) }; if n == 0 { return }; for _, c := range abc { gen(abc, append(cur, c), n-1) } }
+	gen([]string{"1", "0", "2.5", "'s'", "a", "b", "+", "-", "/", "%", "^", "<<", "AND", "NOT", "=", "<", "IS", "NULL", "IN", "(", ")", "[", "]", ",", "MAX", "ARRAY", "g"}, nil, @L1@)
+	gen([]string{"1", "a", "b", "-", "/", "(", ")", "[", "]", ",", "MAX"}, nil, @L2@)
+	@EXTRA@
+	managers := []variants.IVariantOperations{variants.NewTypeUnsafeVariantOperations(), variants.NewTypeSafeVariantOperations()}
+	bad := 0
+	accepted := 0
+	var sample []string
+	for _, toks := range cases {
+		expr := strings.Join(toks, " ")
+		c := calculator.NewExpressionCalculator()
+		c.SetAutoVariables(false)
+		var err error
+		func() {
+			defer func() { if r := recover(); r != nil { t.Errorf("%q: SetExpression panicked: %v", expr, r); bad++; err = fmt.Errorf("panic") } }()
+			err = c.SetExpression(expr)
+		}()
+		if err != nil { continue }
+		accepted++
+		if accepted % 97 == 0 && len(sample) < 40 { sample = append(sample, expr) }
+		prog := c.ResultTokens()
+		for n := 0; n <= len(prog); n++ {
+			if rpnDepth(prog, n) < 0 { t.Errorf("%q: the compiled program lacks operands at token %d (A6)", expr, n-1); bad++; break }
+		}
+		for i, tk := range prog {
+			if tk == nil || tk.Value() == nil { t.Errorf("%q: token %d has no value (A6)", expr, i); bad++; continue }
+			if (tk.Type() == parsers.Variable || tk.Type() == parsers.Function) && tk.Value().Type() != variants.String { t.Errorf("%q: name token %d is not a string (A6)", expr, i); bad++ }
+		}
+		if len(prog) > 0 && rpnDepth(prog, len(prog)) != 1 { t.Errorf("%q: the compiled program leaves %d values (A6)", expr, rpnDepth(prog, len(prog))); bad++ }
+		before := snapshot(c)
+		for _, ops := range managers {
+			c.SetVariantOperations(ops)
+			for _, mk := range varSets() {
+				vars := mk()
+				var vb []string
+				for _, v := range vars.GetAll() { vb = append(vb, v.Value().String()) }
+				r1, ok1 := evalOnce(t, expr, c, vars)
+				r2, ok2 := evalOnce(t, expr, c, vars)
+				if !ok1 || !ok2 { bad++; continue }
+				if r1 != r2 { t.Errorf("%q: evaluated twice with equal inputs: %s then %s (C19)", expr, r1, r2); bad++ }
+				for i, v := range vars.GetAll() { if v.Value().String() != vb[i] { t.Errorf("%q: evaluation changed variable %s from %s to %s (C19)", expr, v.Name(), vb[i], v.Value().String()); bad++ } }
+			}
+		}
+		if !sameSnap(before, snapshot(c)) { t.Errorf("%q: evaluation changed the compiled program (C19)", expr); bad++ }
+		if bad > 8 { t.Fatalf("stopping after %d failures", bad) }
+	}
+	if accepted == 0 { t.Fatalf("no expression was accepted: the check is vacuous") }
+	// concurrent evaluations of one compiled expression, separate variable collections (run under -race in the thorough tier)
+	for _, expr := range sample {
+		c := calculator.NewExpressionCalculator()
+		c.SetAutoVariables(false)
+		if c.SetExpression(expr) != nil { continue }
+		sets := varSets()
+		want := make([]string, len(sets))
+		for i, mk := range sets { want[i], _ = evalOnce(t, expr, c, mk()) }
+		var wg sync.WaitGroup
+		got := make([]string, 4*len(sets))
+		for g := 0; g < len(got); g++ {
+			wg.Add(1)
+			go func(g int) { defer wg.Done(); for k := 0; k < 20; k++ { got[g], _ = evalOnce(t, expr, c, sets[g%len(sets)]()) } }(g)
+		}
+		wg.Wait()
+		for g := range got { if got[g] != want[g%len(sets)] { t.Errorf("%q: concurrent evaluation returned %s, sequential %s (C19)", expr, got[g], want[g%len(sets)]); bad++ } }
+	}
+}
+'''
+
+
+@family(r'expressions-gox/calculator\.')
+class EvaluatorFamily(Family):
+    @classmethod
+    def source(cls, l1=3, l2=5, extra=''):
+        return EVAL_TEST.replace('@L1@', str(l1)).replace('@L2@', str(l2)).replace('@EXTRA@', extra)
+
+    def test_source(self, vals):
+        return 'calculator', self.source()
+
+    @classmethod
+    def bounded_source(cls, prog, fname):
+        return 'calculator', cls.source(), ('all token sequences up to length 3 over a 27-token alphabet and up to length 5 over {1,a,b,-,/,(,),[,],",",MAX}: '
+                                            'accepted ones checked for a well-formed program (A6), evaluated twice under 4 variable assignments x 2 operation managers '
+                                            '(one of result/error, no panic, equal answers, program and variables unchanged), 40 of them evaluated from 16 goroutines')
+
+
+FUNCS_TEST = r'''package functions_test
+
+import (
+	"math"
+	"strings"
+	"testing"
+	"time"
+
+	"github.com/pip-services3-gox/pip-services3-expressions-gox/calculator/functions"
+	"github.com/pip-services3-gox/pip-services3-expressions-gox/variants"
+)
+
+// C08 (bounded): all 37 registered names, each looked up in three letter cases, called with every argument list of
+// length 0..3 over a pool of boundary values of every variant type (and a few longer lists), under both operation
+// managers, against a reference written from the statement. The manager's own Convert is the oracle for argument
+// conversion (conversions are C07's subject).
+type ref func(p []*variants.Variant, ops variants.IVariantOperations) (want *variants.Variant, wantErr bool, check func(got *variants.Variant) bool)
+
+func conv(ops variants.IVariantOperations, v *variants.Variant, t variants.VariantType) (*variants.Variant, bool) {
+	var r *variants.Variant
+	var err error
+	ok := true
+	func() { defer func() { if recover() != nil { ok = false } }(); r, err = ops.Convert(v, t) }()
+	if !ok || err != nil || r == nil { return nil, false }
+	return r, true
+}
+
+func dbl(name string, f func(float64) float64) ref {
+	return func(p []*variants.Variant, ops variants.IVariantOperations) (*variants.Variant, bool, func(*variants.Variant) bool) {
+		if len(p) != 1 { return nil, true, nil }
+		v, ok := conv(ops, p[0], variants.Double)
+		if !ok { return nil, true, nil }
+		return variants.VariantFromDouble(f(v.AsDouble())), false, nil
+	}
+}
+
+func fold(step func(ops variants.IVariantOperations, acc, v *variants.Variant) (*variants.Variant, bool)) ref {
+	return func(p []*variants.Variant, ops variants.IVariantOperations) (*variants.Variant, bool, func(*variants.Variant) bool) {
+		if len(p) < 2 { return nil, true, nil }
+		acc := p[0]
+		for _, v := range p[1:] {
+			var ok bool
+			acc, ok = step(ops, acc, v)
+			if !ok { return nil, true, nil }
+		}
+		return acc, false, nil
+	}
+}
+
+func pick(cmp func(ops variants.IVariantOperations, a, b *variants.Variant) (*variants.Variant, error)) func(variants.IVariantOperations, *variants.Variant, *variants.Variant) (*variants.Variant, bool) {
+	return func(ops variants.IVariantOperations, acc, v *variants.Variant) (r *variants.Variant, ok bool) {
+		defer func() { if recover() != nil { r, ok = nil, false } }()
+		t, err := cmp(ops, acc, v)
+		if err != nil || t == nil || t.Type() != variants.Boolean { return nil, false }
+		if t.AsBoolean() { return v, true }
+		return acc, true
+	}
+}
+
+func zero(mk func() *variants.Variant) ref {
+	return func(p []*variants.Variant, ops variants.IVariantOperations) (*variants.Variant, bool, func(*variants.Variant) bool) {
+		if len(p) != 0 { return nil, true, nil }
+		return mk(), false, nil
+	}
+}
+
+func longs(ops variants.IVariantOperations, p []*variants.Variant, t variants.VariantType) ([]int64, bool) {
+	var out []int64
+	for _, v := range p {
+		c, ok := conv(ops, v, t)
+		if !ok { return nil, false }
+		if t == variants.Long { out = append(out, c.AsLong()) } else { out = append(out, int64(c.AsInteger())) }
+	}
+	return out, true
+}
+
+var refs = map[string]ref{
+	"Ticks": func(p []*variants.Variant, ops variants.IVariantOperations) (*variants.Variant, bool, func(*variants.Variant) bool) {
+		if len(p) != 0 { return nil, true, nil }
+		lo := time.Now().Unix()
+		return nil, false, func(g *variants.Variant) bool { return g.Type() == variants.Long && lo <= g.AsLong() && g.AsLong() <= time.Now().Unix() }
+	},
+	"Now": func(p []*variants.Variant, ops variants.IVariantOperations) (*variants.Variant, bool, func(*variants.Variant) bool) {
+		if len(p) != 0 { return nil, true, nil }
+		lo := time.Now()
+		return nil, false, func(g *variants.Variant) bool { return g.Type() == variants.DateTime && !g.AsDateTime().Before(lo) && !g.AsDateTime().After(time.Now()) }
+	},
+	"TimeSpan": func(p []*variants.Variant, ops variants.IVariantOperations) (*variants.Variant, bool, func(*variants.Variant) bool) {
+		n := len(p)
+		if n != 1 && n != 3 && n != 4 && n != 5 { return nil, true, nil }
+		l, ok := longs(ops, p, variants.Long)
+		if !ok { return nil, true, nil }
+		if n == 1 { return variants.VariantFromTimeSpan(time.Millisecond * time.Duration(l[0])), false, nil }
+		for len(l) < 5 { l = append(l, 0) }
+		return variants.VariantFromTimeSpan(time.Millisecond * time.Duration((((l[0]*24+l[1])*60+l[2])*60+l[3])*1000+l[4])), false, nil
+	},
+	"Date": func(p []*variants.Variant, ops variants.IVariantOperations) (*variants.Variant, bool, func(*variants.Variant) bool) {
+		n := len(p)
+		if n < 1 || n > 7 { return nil, true, nil }
+		if n == 1 {
+			l, ok := longs(ops, p, variants.Long)
+			if !ok { return nil, true, nil }
+			return variants.VariantFromDateTime(time.Unix(l[0], 0)), false, nil
+		}
+		l, ok := longs(ops, p, variants.Integer)
+		if !ok { return nil, true, nil }
+		d := []int64{0, 1, 1, 0, 0, 0, 0}
+		copy(d, l)
+		return variants.VariantFromDateTime(time.Date(int(d[0]), time.Month(d[1]), int(d[2]), int(d[3]), int(d[4]), int(d[5]), int(d[6]), time.Local)), false, nil
+	},
+	"DayOfWeek": func(p []*variants.Variant, ops variants.IVariantOperations) (*variants.Variant, bool, func(*variants.Variant) bool) {
+		if len(p) != 1 { return nil, true, nil }
+		v, ok := conv(ops, p[0], variants.DateTime)
+		if !ok { return nil, true, nil }
+		return variants.VariantFromInteger(int(v.AsDateTime().Weekday())), false, nil
+	},
+	"Min": fold(pick(func(ops variants.IVariantOperations, a, b *variants.Variant) (*variants.Variant, error) { return ops.More(a, b) })),
+	"Max": fold(pick(func(ops variants.IVariantOperations, a, b *variants.Variant) (*variants.Variant, error) { return ops.Less(a, b) })),
+	"Sum": fold(func(ops variants.IVariantOperations, acc, v *variants.Variant) (r *variants.Variant, ok bool) {
+		defer func() { if recover() != nil { r, ok = nil, false } }()
+		s, err := ops.Add(acc, v)
+		return s, err == nil && s != nil
+	}),
+	"If": func(p []*variants.Variant, ops variants.IVariantOperations) (*variants.Variant, bool, func(*variants.Variant) bool) {
+		if len(p) != 3 { return nil, true, nil }
+		c, ok := conv(ops, p[0], variants.Boolean)
+		if !ok { return nil, true, nil }
+		if c.AsBoolean() { return p[1], false, nil }
+		return p[2], false, nil
+	},
+	"Choose": func(p []*variants.Variant, ops variants.IVariantOperations) (*variants.Variant, bool, func(*variants.Variant) bool) {
+		if len(p) < 3 { return nil, true, nil }
+		c, ok := conv(ops, p[0], variants.Integer)
+		if !ok { return nil, true, nil }
+		i := c.AsInteger()
+		if i < 1 || i >= len(p) { return nil, true, nil }
+		return p[i], false, nil
+	},
+	"E":  zero(func() *variants.Variant { return variants.VariantFromFloat(math.E) }),
+	"Pi": zero(func() *variants.Variant { return variants.VariantFromFloat(math.Pi) }),
+	"Rnd": func(p []*variants.Variant, ops variants.IVariantOperations) (*variants.Variant, bool, func(*variants.Variant) bool) {
+		if len(p) != 0 { return nil, true, nil }
+		return nil, false, func(g *variants.Variant) bool { return g.Type() == variants.Float && 0 <= g.AsFloat() && g.AsFloat() < 1 }
+	},
+	"Abs": func(p []*variants.Variant, ops variants.IVariantOperations) (*variants.Variant, bool, func(*variants.Variant) bool) {
+		if len(p) != 1 { return nil, true, nil }
+		switch p[0].Type() {
+		case variants.Integer: x := p[0].AsInteger(); if x < 0 { x = -x }; return variants.VariantFromInteger(x), false, nil
+		case variants.Long: x := p[0].AsLong(); if x < 0 { x = -x }; return variants.VariantFromLong(x), false, nil
+		case variants.Float: return variants.VariantFromFloat(float32(math.Abs(float64(p[0].AsFloat())))), false, nil
+		}
+		v, ok := conv(ops, p[0], variants.Double)
+		if !ok { return nil, true, nil }
+		return variants.VariantFromDouble(math.Abs(v.AsDouble())), false, nil
+	},
+	"Acos": dbl("Acos", math.Acos), "Asin": dbl("Asin", math.Asin), "Atan": dbl("Atan", math.Atan), "Exp": dbl("Exp", math.Exp),
+	"Log": dbl("Log", math.Log), "Ln": dbl("Ln", math.Log), "Log10": dbl("Log10", math.Log10),
+	"Ceil": dbl("Ceil", math.Ceil), "Ceiling": dbl("Ceiling", math.Ceil), "Floor": dbl("Floor", math.Floor), "Round": dbl("Round", math.Round),
+	"Cos": dbl("Cos", math.Cos), "Sin": dbl("Sin", math.Sin), "Tan": dbl("Tan", math.Tan), "Sqr": dbl("Sqr", math.Sqrt), "Sqrt": dbl("Sqrt", math.Sqrt),
+	"Trunc": func(p []*variants.Variant, ops variants.IVariantOperations) (*variants.Variant, bool, func(*variants.Variant) bool) {
+		if len(p) != 1 { return nil, true, nil }
+		v, ok := conv(ops, p[0], variants.Double)
+		if !ok { return nil, true, nil }
+		return variants.VariantFromLong(int64(math.Trunc(v.AsDouble()))), false, nil
+	},
+	"Empty": func(p []*variants.Variant, ops variants.IVariantOperations) (*variants.Variant, bool, func(*variants.Variant) bool) {
+		if len(p) != 1 { return nil, true, nil }
+		return variants.VariantFromBoolean(p[0].IsEmpty()), false, nil
+	},
+	"Null": zero(func() *variants.Variant { return variants.EmptyVariant() }),
+	"Contains": func(p []*variants.Variant, ops variants.IVariantOperations) (*variants.Variant, bool, func(*variants.Variant) bool) {
+		if len(p) != 2 { return nil, true, nil }
+		a, ok1 := conv(ops, p[0], variants.String)
+		b, ok2 := conv(ops, p[1], variants.String)
+		if !ok1 || !ok2 { return nil, true, nil }
+		if a.IsEmpty() || a.IsNull() { return variants.VariantFromBoolean(false), false, nil }
+		return variants.VariantFromBoolean(strings.Contains(a.AsString(), b.AsString())), false, nil
+	},
+	"Array": func(p []*variants.Variant, ops variants.IVariantOperations) (*variants.Variant, bool, func(*variants.Variant) bool) {
+		return variants.VariantFromArray(p), false, nil
+	},
+}
+
+func same(a, b *variants.Variant) bool {
+	if a.Type() != b.Type() { return false }
+	if a.Type() == variants.Double && math.IsNaN(a.AsDouble()) { return math.IsNaN(b.AsDouble()) }
+	if a.Type() == variants.Float && a.AsFloat() != a.AsFloat() { return b.AsFloat() != b.AsFloat() }
+	if a.Type() == variants.Array {
+		x, y := a.AsArray(), b.AsArray()
+		if len(x) != len(y) { return false }
+		for i := range x { if !same(x[i], y[i]) { return false } }
+		return true
+	}
+	if a.Type() == variants.DateTime { return a.AsDateTime().Equal(b.AsDateTime()) }
+	return a.String() == b.String()
+}
+
+func TestVerifReplay(t *testing.T) {
+	refs["Random"], refs["Truncate"] = refs["Rnd"], refs["Trunc"]
+	pool := []*variants.Variant{
+		variants.VariantFromInteger(0), variants.VariantFromInteger(2), variants.VariantFromInteger(-3), variants.VariantFromInteger(9007199254740993),
+		variants.VariantFromLong(-9007199254740993), variants.VariantFromLong(1), variants.VariantFromFloat(-2.5), variants.VariantFromDouble(0.5),
+		variants.VariantFromDouble(-7.5), variants.VariantFromString(""), variants.VariantFromString("abc"), variants.VariantFromString("2"),
+		variants.VariantFromBoolean(true), variants.EmptyVariant(), variants.VariantFromDateTime(time.Unix(86400*3, 0)),
+		variants.VariantFromTimeSpan(1500 * time.Millisecond), variants.VariantFromArray([]*variants.Variant{variants.VariantFromInteger(1), variants.VariantFromString("b")}),
+	}
+	var lists [][]*variants.Variant
+	var gen func(cur []*variants.Variant, n int)
+	gen = func(cur []*variants.Variant, n int) { lists = append(lists, append([]*variants.Variant{}, cur...)); if n == 0 { return }; for _, v := range pool { gen(append(cur, v), n-1) } }
+	gen(nil, @DEPTH@)
+	for n := 4; n <= 8; n++ {
+		for _, v := range []*variants.Variant{pool[1], pool[7], pool[11]} {
+			l := make([]*variants.Variant, n)
+			for i := range l { l[i] = v }
+			lists = append(lists, l)
+			l2 := append([]*variants.Variant{}, l...)
+			l2[0] = variants.VariantFromInteger(n - 1)
+			lists = append(lists, l2)
+		}
+	}
+	if len(refs) != 37 { t.Fatalf("reference covers %d names, 37 are registered", len(refs)) }
+	coll := functions.NewDefaultFunctionCollection()
+	if coll.Length() != 37 { t.Fatalf("%d functions registered, the statement names 37", coll.Length()) }
+	managers := []variants.IVariantOperations{variants.NewTypeUnsafeVariantOperations(), variants.NewTypeSafeVariantOperations()}
+	bad := 0
+	for name, rf := range refs {
+		for ci, spelled := range []string{name, strings.ToUpper(name), strings.ToLower(name)} {
+			f := coll.FindByName(spelled)
+			if f == nil { t.Errorf("%s is not found as %q", name, spelled); bad++; continue }
+			if ci > 0 && name != "Array" && name != "Sum" { continue }
+			for mi, ops := range managers {
+				for _, args := range lists {
+					if len(args) > 1 && (name == "Ticks" || name == "Now" || name == "Rnd" || name == "Random" || name == "E" || name == "Pi" || name == "Null") { continue }
+					want, wantErr, chk := rf(args, ops)
+					var got *variants.Variant
+					var err error
+					func() {
+						defer func() { if r := recover(); r != nil { t.Errorf("%s%v (manager %d) panicked: %v", name, args, mi, r); bad++ } }()
+						got, err = f.Calculate(args, ops)
+					}()
+					switch {
+					case (got != nil) == (err != nil): t.Errorf("%s%v (manager %d): result=%v err=%v (exactly one must be non-nil)", name, args, mi, got, err); bad++
+					case wantErr && err == nil: t.Errorf("%s%v (manager %d) = %v, an error is expected", name, args, mi, got); bad++
+					case !wantErr && err != nil: t.Errorf("%s%v (manager %d) failed: %v; expected %v", name, args, mi, err, want); bad++
+					case !wantErr && chk != nil && !chk(got): t.Errorf("%s%v (manager %d) = %v is outside its defined range", name, args, mi, got); bad++
+					case !wantErr && chk == nil && !same(got, want): t.Errorf("%s%v (manager %d) = %v (type %d), expected %v (type %d)", name, args, mi, got, got.Type(), want, want.Type()); bad++
+					}
+					if bad > 10 { t.Fatalf("stopping after %d failures", bad) }
+				}
+			}
+		}
+	}
+}
+'''
+
+
+@family(r'calculator/functions\.(\w+FunctionCalculator|NewDefaultFunctionCollection|\(\*DelegatedFunction\)|checkParamCount|getParameter)')
+class FunctionFamily(Family):
+    @classmethod
+    def source(cls, depth=3):
+        return FUNCS_TEST.replace('@DEPTH@', str(depth))
+
+    def test_source(self, vals):
+        return 'calculator/functions', self.source()
+
+    @classmethod
+    def bounded_source(cls, prog, fname):
+        return 'calculator/functions', cls.source(), ('all 37 registered names (three letter cases) x all argument lists of length 0..3 over 17 boundary values of every '
+                                                      'variant type plus lists of length 4..8, under both operation managers, against a reference written from the statement')
